@@ -147,6 +147,9 @@ func c10Configs(run *vfRun, w *vfWorld) []c10Cfg {
 	add("cookie", "_oauth2_proxy", false, "no-httponly", "", "", false, "--cookie-httponly=false")
 	add("cookie", "_oauth2_proxy", false, "expire0", "", "", false, "--cookie-expire=0")
 	add("cookie", "_oauth2_proxy", false, "expire-30m", "", "", false, "--cookie-expire=30m")
+	// cookie lifetimes 0 (browser-session cookies: no Max-Age / Expires on a saved cookie) and long, with a long name as well
+	add("cookie", c10Name(rng, 200), false, "expire0", "", "", false, "--cookie-expire=0", "--cookie-refresh=0")
+	add("cookie", "_oauth2_proxy", false, "expire-1y", "", "", false, "--cookie-expire=8760h")
 	add("cookie", "_oauth2_proxy", false, "secret16", "", "", false, "--cookie-secret=0123456789abcdef")
 	if run.Env.Thorough() {
 		add("cookie", c10Name(rng, 254), false, "domain", "example.test", "", false, "--cookie-domain=example.test", "--cookie-samesite=lax")
@@ -161,6 +164,7 @@ func c10Configs(run *vfRun, w *vfWorld) []c10Cfg {
 	add("redis", "_oauth2_proxy", true, "cluster-client", "", "", false, w.RedisModeFlags("cluster")...)
 	add("redis", "_oauth2_proxy", true, "sentinel-client", "", "", false, w.RedisModeFlags("sentinel")...)
 	add("redis", "_oauth2_proxy", false, "domain+path", "proxy.example.test", "/app/x", false, "--cookie-domain=example.test", "--cookie-path=/app/")
+	add("redis", "_oauth2_proxy", false, "expire0", "", "", false, "--cookie-expire=0", "--cookie-refresh=0")
 	return out
 }
 
@@ -889,6 +893,7 @@ func TestVerif_C10(t *testing.T) {
 		"field contents from binary nonces, Unicode / invalid UTF-8 e-mail, nil/empty/300-entry/70 kB groups, nil/zero/past/future/far timestamps; cookie names of length 1..256 and regexp metacharacters; " +
 		"histories with RE-SAVES (the jar's session is loaded, every field replaced, and saved by the request presenting it — a refresh; on Redis the ticket's key is written again) mixed with new sessions and clears, on every Redis configuration (standalone, Cluster, Sentinel client) and the heavy cookie configurations; " +
 		"Redis histories with exactly ONE failing GET (then a further request must load the saved, never cleared session) or ONE failing SET (then the same save on the healthy store), 9 fault kinds x 3 client modes; " +
+		"histories whose steps are COMBINED ON ONE RESPONSE (same request, same ResponseWriter: save/re-save then clear, clear then save, re-save twice, save-save-clear) after no / a one-cookie / a three-cookie session in the jar, with one-, two- and three-cookie sessions in the combined saves, on every configuration incl. cookie lifetimes 0 / default / 30m / 1y — the jar after the whole response decides; " +
 		"plus login -> refresh (growing / shrinking ID token) -> sign-out flows over HTTP (the ageing re-save of the flow is itself judged). " +
 		"cell = (store, cookies before -> cookies after, operation, distance of the token length to the nearest threshold, name length class); non-trivial = every case (each is a save or clear followed by a judged load)")
 	run.Assume("lz4 does not compress random base64 text appreciably (thresholds are measured, not assumed)",
@@ -928,6 +933,7 @@ func TestVerif_C10(t *testing.T) {
 		c10Sequences(jobs, run, cfg, p, st, th, ci)
 		c10ManyParts(jobs, run, cfg, p, st, th, ci)
 		c10Resaves(jobs, run, cfg, p, st, th, ci)
+		c10Combined(jobs, run, cfg, p, st, th, ci)
 	}
 	c10StoreFaults(jobs, run, w, st)
 	run.Extra("thresholds_token_length", thrSample)
@@ -1250,6 +1256,205 @@ func c10Resaves(jobs *c10Jobs, run *vfRun, cfg *c10Cfg, p *vfProxy, st *c10Strea
 			run.Eval(c10Cell(cfg, th, prev, 0, 0, "clear"))
 		}
 		run.SampleEvery(2003, func() interface{} {
+			return map[string]interface{}{"config": cfg.Label, "history": b.histString(), "steps": b.steps}
+		})
+	})
+}
+
+// ---------------------------------------------------------------------------------------------------------
+// histories whose steps are combined on one response
+
+type c10RespOp struct {
+	Kind byte // s = save a new session, r = re-save the session the request loads (plain save without one), c = clear
+	L    int
+	V    int64
+}
+
+// Respond performs ops one after the other with ONE request (the jar's cookies) and ONE ResponseWriter — what the proxy does when
+// a session is refreshed while the request is a sign-out, is refreshed and then fails validation, or is saved twice by one
+// handler — applies the response's Set-Cookie lines to the jar in order, and judges the next request by the LAST operation:
+// a clear => nothing loads; a save => exactly that session loads.
+func (b *c10Browser) Respond(ops []c10RespOp) (parts int, ok bool) {
+	req := b.request()
+	rw := httptest.NewRecorder()
+	var loaded *c10sess.SessionState
+	var name []string
+	var snap *c10Snap
+	nsaves := 0
+	step := c10Step{}
+	fail := func(sig, msg string, extra map[string]interface{}) (int, bool) {
+		step.Op = "one-response[" + strings.Join(name, "+") + "]"
+		b.steps = append(b.steps, step)
+		b.run.Violation(sig, fmt.Sprintf("[%s] %s in history %s", b.cfg.Label, msg, b.histString()), b.detail(extra))
+		return 0, false
+	}
+	for _, o := range ops {
+		if o.Kind == 'c' {
+			name = append(name, "clear")
+			err, pan := c10Guarded(func() error { return b.p.P.ClearSessionCookie(rw, req) })
+			if pan != "" {
+				return fail("c10:panic-in-clear", "ClearSessionCookie panicked", map[string]interface{}{"panic": pan})
+			}
+			if err != nil {
+				step.Err = err.Error()
+			}
+			snap = nil
+			b.run.Count("clears", 1)
+			continue
+		}
+		sp := c10Spec{L: o.L, Variant: o.V, UID: c10UID()}
+		s := c10Make(b.st, sp)
+		opName := "save"
+		if o.Kind == 'r' {
+			if loaded == nil {
+				lreq := b.request()
+				lerr, lpan := c10Guarded(func() error { var e error; loaded, e = b.p.P.LoadCookiedSession(lreq); return e })
+				if lpan != "" || lerr != nil {
+					loaded = nil
+				}
+			}
+			if loaded != nil {
+				opName = "resave"
+				loaded.CreatedAt, loaded.ExpiresOn = s.CreatedAt, s.ExpiresOn
+				loaded.AccessToken, loaded.IDToken, loaded.RefreshToken = s.AccessToken, s.IDToken, s.RefreshToken
+				loaded.Nonce, loaded.Email, loaded.User, loaded.Groups, loaded.PreferredUsername = s.Nonce, s.Email, s.User, s.Groups, s.PreferredUsername
+				s = loaded
+			}
+		}
+		name = append(name, fmt.Sprintf("%s(len=%d,v=%d)", opName, o.L, o.V))
+		step.L, step.Variant, step.UID = o.L, o.V, sp.UID
+		err, pan := c10Guarded(func() error { return b.p.P.SaveSession(rw, req, s) })
+		if pan != "" {
+			return fail("c10:panic-in-save", "SaveSession panicked", map[string]interface{}{"panic": pan})
+		}
+		if err != nil {
+			step.Err = err.Error()
+			return fail("c10:save-fails", fmt.Sprintf("SaveSession failed: %v", err), nil)
+		}
+		sn := c10Snapshot(s)
+		b.saved = append(b.saved, sn)
+		snap = &b.saved[len(b.saved)-1]
+		nsaves++
+		b.run.Count("saves", 1)
+	}
+	step.Op = "one-response[" + strings.Join(name, "+") + "]"
+	b.steps = append(b.steps, step)
+	cur := &b.steps[len(b.steps)-1]
+	cur.Emitted, _ = b.apply(rw.Header().Values("Set-Cookie"))
+	cur.JarAfter = b.jarNames()
+	cur.Parts = len(cur.JarAfter)
+	parts = cur.Parts
+	b.parts, b.cur = parts, snap
+	b.run.Count("combined_responses", 1)
+
+	var got *c10sess.SessionState
+	lreq := b.request()
+	lerr, pan := c10Guarded(func() error { var e error; got, e = b.p.P.LoadCookiedSession(lreq); return e })
+	switch {
+	case pan != "":
+		cur.Load = "panic"
+		b.run.Violation("c10:panic-in-load", fmt.Sprintf("[%s] LoadCookiedSession panicked after %s", b.cfg.Label, b.histString()), b.detail(map[string]interface{}{"panic": pan}))
+	case snap != nil && nsaves > 1:
+		// Two saves on one response followed by no clear: not something the proxy does (the handlers that save a NEW session —
+		// sign-in, callback — are not behind the session-loading chain that refreshes; a refresh saves once), and the store, which
+		// sees only the request's cookies, cannot know the parts its first save queued. Recorded, not judged.
+		cur.Load = "equal (not judged)"
+		if lerr != nil || got == nil || len(c10Diff(*snap, got)) > 0 {
+			cur.Load = "not the last save (not judged: two saves on one response)"
+			b.run.Count("two_saves_on_one_response_last_one_does_not_load_not_judged", 1)
+			b.cur = nil // the steps that follow know no current session
+			if lerr == nil && got != nil {
+				b.cur = &c10Snap{}
+				*b.cur = c10Snapshot(got)
+			}
+		}
+		ok = true
+	case snap == nil:
+		b.run.Count("loads_after_clear", 1)
+		if lerr == nil && got != nil {
+			cur.Load = "session user=" + got.User
+			b.run.Violation("c10:session-loads-after-response-ending-in-clear", fmt.Sprintf("[%s] a session (user %q) still loads after the response that ended with a clear: %s", b.cfg.Label, got.User, b.histString()), b.detail(nil))
+			return parts, false
+		}
+		cur.Load = "none"
+		ok = true
+	case lerr != nil || got == nil:
+		b.run.Count("loads_after_save", 1)
+		cur.Load = fmt.Sprintf("error: %v", lerr)
+		b.run.Violation("c10:load-fails-after-response-ending-in-save", fmt.Sprintf("[%s] the session saved last on the response does not load (%v) after %s", b.cfg.Label, lerr, b.histString()), b.detail(nil))
+	default:
+		b.run.Count("loads_after_save", 1)
+		if d := c10Diff(*snap, got); len(d) > 0 {
+			cur.Load = "differs"
+			sig, what := "c10:loaded-session-differs", "differs from the one saved last"
+			for k := len(b.saved) - 2; k >= 0; k-- {
+				if len(c10Diff(b.saved[k], got)) == 0 {
+					sig, what = "c10:stale-session-loads", fmt.Sprintf("is the session of an EARLIER save (%d of %d)", k+1, len(b.saved))
+					break
+				}
+			}
+			b.run.Violation(sig, fmt.Sprintf("[%s] the loaded session %s after %s: %s", b.cfg.Label, what, b.histString(), strings.Join(d, "; ")), b.detail(map[string]interface{}{"differences": d}))
+		} else {
+			cur.Load = "equal"
+			ok = true
+		}
+	}
+	return parts, ok
+}
+
+// c10Combined: (session in the jar before: none / one cookie / three cookies) x (combined response over one-, two- and
+// three-cookie sessions), then one more ordinary save and clear so that whatever the combined response left in the jar meets a
+// further step. Every configuration; the cookie-lifetime configurations and the heavy ones run the full product, the others a third.
+func c10Combined(jobs *c10Jobs, run *vfRun, cfg *c10Cfg, p *vfProxy, st *c10Stream, th c10Thr, ci int) {
+	sz := []int{500, th.T[0], th.T[1] + 3}
+	var combos [][]c10RespOp
+	for _, x := range sz {
+		combos = append(combos, []c10RespOp{{Kind: 's', L: x}, {Kind: 'c'}}, []c10RespOp{{Kind: 'r', L: x}, {Kind: 'c'}}, []c10RespOp{{Kind: 'c'}, {Kind: 's', L: x}})
+		for _, y := range sz {
+			combos = append(combos, []c10RespOp{{Kind: 'r', L: x}, {Kind: 'r', L: y}}, []c10RespOp{{Kind: 'r', L: x}, {Kind: 'r', L: y}, {Kind: 'c'}})
+			if run.Env.Thorough() {
+				combos = append(combos, []c10RespOp{{Kind: 'c'}, {Kind: 'r', L: x}, {Kind: 'r', L: y}}, []c10RespOp{{Kind: 'r', L: x}, {Kind: 'c'}, {Kind: 's', L: y}})
+			}
+		}
+	}
+	priors := []int{-1, 500, th.T[1] + 3}
+	full := cfg.Heavy || strings.Contains(cfg.Label, "expire")
+	n := len(priors) * len(combos)
+	jobs.each(n, func(i int) {
+		if !full && !run.Env.Thorough() && (i+ci)%3 != 0 {
+			return
+		}
+		prior, ops := priors[i/len(combos)], append([]c10RespOp{}, combos[i%len(combos)]...)
+		if i%4 == 3 {
+			for k := range ops {
+				ops[k].V = run.Env.Seed*22801763 + int64(i)*389 + int64(k)
+			}
+		}
+		b := c10NewBrowser(run, cfg, p, st)
+		if prior >= 0 {
+			p0, _ := b.Save(c10Spec{L: prior, UID: c10UID()})
+			run.Eval(c10Cell(cfg, th, 0, p0, prior, "save"))
+		}
+		prev := b.parts
+		kinds, lastL := "", 0
+		for _, o := range ops {
+			kinds += string(o.Kind)
+			if o.Kind != 'c' {
+				lastL = o.L
+			}
+		}
+		now, _ := b.Respond(ops)
+		run.Eval(c10Cell(cfg, th, prev, now, lastL, "one-response:"+kinds))
+		run.Count("combined_response_histories", 1)
+		if i%2 == 0 { // what the combined response left in the jar meets a further step
+			L := sz[(i/2)%len(sz)]
+			parts, _ := b.Save(c10Spec{L: L, UID: c10UID()})
+			run.Eval(c10Cell(cfg, th, now, parts, L, "save"))
+		} else if b.cur != nil {
+			b.Clear()
+			run.Eval(c10Cell(cfg, th, now, 0, 0, "clear"))
+		}
+		run.SampleEvery(1009, func() interface{} {
 			return map[string]interface{}{"config": cfg.Label, "history": b.histString(), "steps": b.steps}
 		})
 	})
